@@ -242,7 +242,7 @@ def e5_part(prop_arg, n):
 PROPERTIES = {
     "C01": dict(level="exploration", parts=[e1_part("C01", dict(quick=100000, thorough=2000000))]),
     "C02": dict(level="exploration", parts=[e1_part("C02", dict(quick=100000, thorough=2000000))] + e3_parts("C02", "B", dict(quick=20000, thorough=200000))),
-    "C03": dict(level="exploration", parts=[e1_part("C03", dict(quick=100000, thorough=2000000))] + e3_parts("C03", "B", dict(quick=100000, thorough=1500000))),
+    "C03": dict(level="exploration", parts=[e1_part("C03", dict(quick=100000, thorough=2000000))] + e3_parts("C03", "B", dict(quick=100000, thorough=1500000)) + [e5_part("C03", dict(quick=400, thorough=6000))]),
     "C04": dict(level="exploration", parts=e3_parts("C04", "AB", dict(quick=150000, thorough=2500000))),
     "C05": dict(level="exploration", parts=e3_parts("C05", "AB", dict(quick=150000, thorough=2500000))),
     "C06": dict(level="exploration", parts=e3_parts("C06", "AB", dict(quick=150000, thorough=2500000))),
